@@ -198,7 +198,7 @@ def plan(tier, seed):
                       "budget_s": 100 if tier == "quick" else 900})
     nf = 16 if tier == "quick" else 32
     for i in range(nf):
-        specs.append({"kind": "float", "sub": i, "cases": 12 if tier == "quick" else 120, "nmax": 400,
+        specs.append({"kind": "float", "sub": i, "cases": 12 if tier == "quick" else 120, "nmax": 400, "exact_all": tier != "quick",
                       "budget_s": 100 if tier == "quick" else 1200})
     return specs
 
@@ -237,7 +237,7 @@ def run_shard(spec, R):
             w = gen_w(rng, n, WK[it % len(WK)])
             y = gen_y(rng, n, YK[int(rng.integers(0, 3))])
             lam = float(10.0 ** rng.uniform(-6, 8)) if it % 4 else float(rng.choice([1e-6, 1e8, 1e7, 1e-5]))
-            check_case(R, y, w, lam, do_exact=(n <= 150), do_float=True)
+            check_case(R, y, w, lam, do_exact=(n <= 150 or (spec.get("exact_all") and it % 3 == 0)), do_float=True)
             R.count("float_large_n")
 
 
